@@ -29,7 +29,7 @@ def run(chk):
         rule_redef(chk, pc)
         rule_include(chk, pc)
     rule_args(chk)
-    rule_expand_eval(chk)
+    expanded = rule_expand_eval(chk)
     rule_once(chk)
     rule_defines(chk)
     import c08
@@ -45,7 +45,15 @@ def run(chk):
             return self.chk.ob(key.replace("C08.macro/", "C12.term/").replace("C08.", "C12."), ok, why, where, trivial, sample)
         def floor(self, key, count, floor, what, where=None):
             return self.chk.floor(key.replace("C08.", "C12."), count, floor, what, where)
-    c08.rule_macro(Proxy(chk))
+        def unreadable(self, key, what, reason, where=None):
+            return self.chk.unreadable(key.replace("C08.macro/", "C12.term/").replace("C08.", "C12."), what, reason, where)
+        def note(self, t):
+            self.chk.note(t)
+        @property
+        def tier(self):
+            return self.chk.tier
+    if not expanded:
+        c08.rule_macro(Proxy(chk), evaluate=False)      # (the shape rules about the disabled set: only when apply_macros is not readable as a table)
 
 
 def closure_compares_name(f, call, neq=True):
